@@ -124,6 +124,8 @@ def gen_function(contract, contracts, known=()):
             interp.depth = 0
             interp.call_log = []
             S.GHOST["fft"] = []
+            S.GHOST["sum"] = []
+            interp.write_log = []
             interp.spec = 0
             V.reset_fresh()
             bound = {n: s.fresh(n, path) for n, s in specs.items()}
@@ -133,6 +135,7 @@ def gen_function(contract, contracts, known=()):
             n_pre = len(path.conds)
             path.pre = list(path.conds)
             call_bound = {k: v for k, v in bound.items() if not k.startswith("_")}
+            interp.entry_snapshots = _snapshot_entry(bound)
             try:
                 result = interp.exec_function(f, [], call_bound)
             except X.PyRaise as e:
@@ -189,6 +192,33 @@ def gen_function(contract, contracts, known=()):
                 else:
                     rep.obligations.append((full, ob.hyps, ob.goal, meta))
     return rep
+
+
+def _snapshot_entry(bound):
+    """entry-state copies of mutable inputs, for old(...) in postconditions"""
+    from .arrays import SArr
+    snaps = {}
+
+    def snap(v, depth=0):
+        if id(v) in snaps or depth > 3:
+            return
+        if isinstance(v, SArr):
+            snaps[id(v)] = (v, v.copy())
+        elif isinstance(v, X.Obj):
+            cp = X.Obj(v.cls, dict(v.attrs))
+            snaps[id(v)] = (v, cp)
+            for k, a in v.attrs.items():
+                snap(a, depth + 1)
+            for k, a in list(cp.attrs.items()):
+                if id(a) in snaps and isinstance(a, SArr):
+                    cp.attrs[k] = snaps[id(a)][1]
+        elif isinstance(v, list):
+            snaps[id(v)] = (v, list(v))
+        elif isinstance(v, dict):
+            snaps[id(v)] = (v, dict(v))
+    for v in bound.values():
+        snap(v)
+    return snaps
 
 
 def emit_structured(interp, contract, path, name, spec, bound, result):
